@@ -67,6 +67,9 @@ PARAM_TYPES = {
     ("HpcSubmitter._submit_batches", "submission_group"): "SubmissionGroup",
     ("HpcSubmitter._submit_batch", "submission_group"): "SubmissionGroup",
     ("HpcSubmitter._make_batch", "submission_group"): "SubmissionGroup",
+    ("HpcSubmitter._make_batch", "available_jobs"): ("list", "Job"),
+    ("HpcSubmitter._make_batch", "submitted_jobs"): ("list", "Job"),
+    ("HpcSubmitter._make_batch", "blocked_jobs"): ("list", "Job"),
     ("HpcSubmitter._make_async_submitter", "submission_group"): "SubmissionGroup",
     ("HpcSubmitter._create_run_script", "submission_group"): "SubmissionGroup",
     ("HpcSubmitter._get_available_jobs", "submission_group"): "SubmissionGroup",
@@ -580,6 +583,7 @@ class CallGraph:
         self.calls = {}  # func qual -> list of CallSite
         self.callers = {}  # callee qual -> list of CallSite
         self.stats = {"resolved": 0, "cha": 0, "external": 0, "unresolved": 0}
+        self.unresolved_wrappers = []
         self._method_names = {}
         for fn in index.functions.values():
             if fn.cls is not None and fn.parent is None:
@@ -712,11 +716,16 @@ class CallGraph:
                     elif isinstance(call.args[idx], ast.Name) and call.args[idx].id in fn.params:
                         s.via_wrapper = callee.short
                         s.forwards_param = call.args[idx].id
+                    elif dotted(call.args[idx]) and (at is None or at[0] in ("ext", "extname")) and not (isinstance(call.args[idx], ast.Attribute) and isinstance(call.args[idx].value, ast.Name) and call.args[idx].value.id in ("self", "cls")):
+                        # W(os.remove, path): an external function runs under the lock, in a hold of its own
+                        s.via_wrapper = callee.short
+                        s.wrapped_external = dotted(call.args[idx])
+                        s.wrapped_args = call.args[idx + 1:]
+                        s.wrapped_keywords = call.keywords
                     else:
-                        raise AnalysisError(
-                            "callgraph",
-                            f"{fn.loc(call)}: function argument of lock wrapper {callee.short} is not resolvable",
-                        )
+                        # not fatal for the whole analysis: only the lock-context rules need this edge
+                        s.via_wrapper = callee.short
+                        self.unresolved_wrappers.append(f"{fn.loc(call)}: function argument of lock wrapper {callee.short} is not resolvable")
         return s
 
     def _dispatch(self, ft):
@@ -804,6 +813,7 @@ class CallSite:
         self.wrapped_args = []
         self.wrapped_keywords = []
         self.forwards_param = None
+        self.wrapped_external = None
 
     @property
     def loc(self):
